@@ -437,7 +437,7 @@ func main() {
 	r := ev.Start("C12")
 	defer r.RecoverMain()
 	defer world.Cleanup()
-	r.SetBudget(ev.Pick(r, 80*time.Second, 25*time.Minute))
+	r.SetBudget(ev.Pick(r, 240*time.Second, 25*time.Minute))
 	r.Assume("time translation invariance: the cleaner only uses differences between 'now', snapshot timestamps, first-seen times and committed times; states are keyed on exact differences",
 		"per instance snapshots appear in timestamp order; the bucket lists only names with the database prefix (simpleblob contract)")
 
